@@ -62,14 +62,15 @@ class SingleFilterSet(FilterSetInterface[FilterValueT], metaclass=ABCMeta):
         return 'active'
 
     async def put(self, name: str, value: FilterValueT) -> None:
-        if name == self.name:
-            await self.replace_active(value)
+        if name != self.name:
+            # only the one, permanently named, filter can be kept
+            raise NotImplementedError()
+        await self.replace_active(value)
 
     async def delete(self, name: str) -> None:
-        if name == self.name:
-            await self.replace_active(None)
-        else:
+        if name != self.name or await self.get_active() is None:
             raise KeyError(name)
+        await self.replace_active(None)
 
     async def rename(self, before_name: str, after_name: str) -> None:
         raise NotImplementedError()
@@ -78,7 +79,7 @@ class SingleFilterSet(FilterSetInterface[FilterValueT], metaclass=ABCMeta):
         raise NotImplementedError()
 
     async def set_active(self, name: str) -> None:
-        if name != self.name:
+        if name != self.name or await self.get_active() is None:
             raise KeyError(name)
 
     async def get(self, name: str) -> FilterValueT:
